@@ -844,8 +844,10 @@ func c02RealWALSpecs(thorough bool) []rwSpec {
 		}
 		// rotation family (tiny FileLimit, housekeeping tick as an event)
 		rot("happy", 0, 2, 35, 1)
+		rot("happy", 1, 2, 35, 1)
 		rot("happy", 2, 2, 35, 2)
-		rot("B4", 0, 1, 35, 1)
+		rot("B4", 0, 2, 35, 1)
+		out[len(out)-1].LaterSteps = 10
 		rot("B4", 1, 1, 35, 2)
 		return out
 	}
@@ -878,6 +880,7 @@ func c02RealWAL(r *ev.Run, exe, work string) bool {
 	r.Assume(
 		"real-WAL family: one validator of a directed base schedule (happy path, B3, B4, B5) runs over the real consensus/wal.go on crashfs; crash model as in C03: directory operations durable once issued, file data durable up to the last Sync, any byte prefix of the un-synced suffix of each WAL file may survive, plus (size metadata durable before payload data) a zero-filled tail confined to the payload of the last surviving record whose header is intact",
 		"real-WAL family: crash positions = after every file-system call and after every network send of every step of the chosen validator (reconstructed from the crashfs call log and the recorded send order; cross-checked against real crashfs.FailAfter cuts); after a restart the rest of the validator's recorded wire events is delivered; the other validators behave as in the base run; up to 2 (thorough: 3 on the happy path) crash generations",
+		"real-WAL rotation family: the engine's WAL FileLimit is replaced by 200 bytes (TotalLimit 1 GiB: no head segment is ever deleted) and wal.go's housekeeping ticker becomes an explicit event - one doHousekeeping call per open writer at the end of every k-th step (k in 1..3) - so segments rotate after about two records; the file-system calls of a tick are crash positions like any other; a record written to an unlinked segment is not durable (not reachable by name)",
 		"real-WAL family: height 1 only - a validator that has finalized is terminal (the harness's block store does not survive a restart); housekeeping of wal.go never runs (HousekeepingInterval 1000 h): rotation is C03's business",
 	)
 	results := make([]*rwResult, len(specs))
@@ -988,6 +991,8 @@ func c02RealWAL(r *ev.Run, exe, work string) bool {
 	}
 	r.Sanity(tot["realwal_crash_images_torn"] > 0 && tot["realwal_restarts_that_repaired_a_wal"] > 0 && tot["realwal_cases_signed_again_after_restart"] > 0 && tot["realwal_crash_images_zero_filled_tail"] > 0,
 		"real-WAL tier vacuous: torn=%d repaired=%d resigned=%d zero=%d", tot["realwal_crash_images_torn"], tot["realwal_restarts_that_repaired_a_wal"], tot["realwal_cases_signed_again_after_restart"], tot["realwal_crash_images_zero_filled_tail"])
+	r.Sanity(tot["realwal_rotation_family_segments_created_by_ticks"] > 0 && tot["realwal_rotation_family_repairs_that_removed_a_segment"] > 0,
+		"rotation family vacuous: segments created=%d, repairs that removed a segment=%d", tot["realwal_rotation_family_segments_created_by_ticks"], tot["realwal_rotation_family_repairs_that_removed_a_segment"])
 	return ok
 }
 
